@@ -140,7 +140,7 @@ func (p Probe) query() statedb.Query[*Obj] {
 		if len(p.Key) == 128 {
 			return PfxIndex.Query(netip.AddrFrom16(a).Unmap())
 		}
-		if len(p.Key) >= 96 {
+		if len(p.Key) >= 96 && netip.AddrFrom16(a).Is4In6() {
 			var a4 [4]byte
 			copy(a4[:], a[12:])
 			return PfxIndex.QueryPrefix(netip.PrefixFrom(netip.AddrFrom4(a4), len(p.Key)-96))
@@ -206,7 +206,12 @@ func (p Probe) run(txn statedb.ReadTxn, tbl statedb.Table[*Obj]) (obs []Obs, wat
 		return observe(seq), w
 	case "lowerbound":
 		seq, w := tbl.LowerBoundWatch(txn, q)
-		return observe(seq), w
+		first := observe(seq)
+		if again := observe(seq); fmtObs(again) != fmtObs(first) {
+			// the sequence is re-iterable: a second pass over the same sequence must yield the same objects
+			return append(first, Obs{ID: "<second iteration of the same sequence differs>"}), w
+		}
+		return first, w
 	}
 	panic("bad kind")
 }
@@ -282,7 +287,10 @@ func (s Schema) genProbes(rng *rand.Rand, m *TableModel, n int) []Probe {
 				width := 16
 				base := 0
 				if idx == "pfx" {
-					width, base = 128, 96
+					width = 128
+					if rng.IntN(3) > 0 {
+						base = 96 // mostly stay inside the IPv4-mapped range
+					}
 				}
 				if key == "" {
 					key = randomPfxBits(rng, idx)
@@ -349,6 +357,8 @@ var tagAlphabet = []byte{0x00, 0x01, 0x02, 'a', 0xff}
 var pfxPool = []string{
 	"0.0.0.0/0", "10.0.0.0/8", "10.0.0.0/9", "10.128.0.0/9", "10.1.0.0/16", "10.1.1.0/24", "10.1.1.1/32", "10.1.1.2/31",
 	"11.0.0.0/8", "10.1.128.0/17", "192.168.0.0/16", "192.168.1.0/24", "128.0.0.0/1", "10.0.0.0/7", "10.1.1.128/25", "255.255.255.255/32",
+	// IPv6: shorter than the 96-bit IPv4-mapped range, covering it, and full length
+	"::/0", "2001:db8::/32", "2001:db8:1::/48", "fe80::/10", "::ffff:0:0/96", "::/64", "2001:db8::1/128", "ff00::/8",
 }
 
 func randomPfx(rng *rand.Rand) netip.Prefix {
